@@ -117,17 +117,18 @@ pub fn vx_drop_opt_guard(g: Option<WaitForGuard>, w: &mut World)
     match g { Some(x) => drop__WaitForGuard(x, w), None => {} }
 }
 
-/// a panic site inside a Drop body that must never panic (a panic while unwinding aborts; a poisoned wait-for lock
-/// must be tolerated): unreachable by contract
+/// a panic site where the framework must never panic: inside a Drop body (a panic while unwinding aborts; a poisoned wait-for
+/// lock must be tolerated) and in every function under contract except the two documented panics (capacity 0 in
+/// spawn_with_mailbox_capacity, the deliberate deadlock panic in ask): unreachable by contract
 #[verifier::external_body]
 pub fn vx_forbidden_panic(w: &mut World) -> !
     requires
-        false, /*L:drop_body.never_panics*/
+        false, /*L:framework.no_unexpected_panic*/
 { panic!() }
 #[cfg(feature = "deadlock-detection")]
 pub fn vx_unwrap_lock_nopanic(r: core::result::Result<Box<HashMap<u64, Identity>>, PoisonError>, w: &mut World) -> (g: Box<HashMap<u64, Identity>>)
     requires
-        r is Ok, /*L:drop_body.never_panics*/
+        r is Ok, /*L:framework.no_unexpected_panic*/
     ensures r == Ok::<Box<HashMap<u64, Identity>>, PoisonError>(g), *final(w) == *old(w),
 {
     match r { Ok(g) => g, Err(_) => vx_forbidden_panic(w) }
